@@ -879,6 +879,38 @@ def _differences(a, b) -> List[str]:
     )
 
 
+def _menu_probe(ctx: Ctx, prop: str, state_fn) -> List[Violation]:
+    """every single instruction of the world's FULL menu (incl. far-away / missing / wrong-plug targets) applied through
+    apply_instructions to the post-state of every explored transition; the state invariant is judged on each result"""
+    from nrel.hive.state.simulation_state.update.step_simulation_ops import apply_instructions
+    from .worlds import mk_instruction
+    import immutables
+
+    out: List[Violation] = []
+    s = ctx.post._replace(applied_instructions=immutables.Map())
+    if state_fn(s):
+        return out  # already reported by the transition monitor
+    for ev in ctx.world.atomic_menu:
+        kind, vid = ev[1], ev[2]
+        v0 = s.vehicles.get(vid)
+        s2 = apply_instructions(s, ctx.env, (mk_instruction(ev),))
+        ctx.cov[f"{prop.lower()}:menu_probe"] += 1
+        if s2 is s:
+            continue
+        for c, d, m in state_fn(s2):
+            out.append(Violation(prop, c, d + ("menu_probe", kind, sname(v0) if v0 is not None else "-"), f"after {kind} for {vid} ({sname(v0) if v0 is not None else 'missing'}) applied to a reached state: {m}"))
+    ctx.world.env.reporter.take()
+    return out
+
+
+def c07_menu_probe(ctx: Ctx) -> List[Violation]:
+    return _menu_probe(ctx, "C07", c07_state)
+
+
+def c02_menu_probe(ctx: Ctx) -> List[Violation]:
+    return _menu_probe(ctx, "C02", c02_state)
+
+
 def c09_atomicity(ctx: Ctx) -> List[Violation]:
     """on the post-state of every explored transition: every single instruction of the menu"""
     from nrel.hive.state.simulation_state.update.step_simulation_ops import apply_instructions
